@@ -111,6 +111,26 @@ let () =
        | ["parse"; h] ->
          if spec then emit "??*" else emit (res_str 1 (parse (bytes_of_hex h)));
          s
+       | ["ent"; h] ->
+         (* <a v="&NAME;"/> : the attribute value read back *)
+         let nm = bytes_of_hex h in
+         let doc = bytes_of_hex "3c6120763d2226" @ nm @ bytes_of_hex "3b222f3e" in
+         if spec then
+           (match std_entity nm std_entities with
+            | Some c -> emit ("ent " ^ hx [c])
+            | None ->
+              (* decimal character reference below 128 *)
+              let s = String.concat "" (List.map (fun b -> String.make 1 (Char.chr (int_of_z b land 255))) nm) in
+              let n = String.length s in
+              let digits = n >= 2 && n <= 4 && s.[0] = '#' && (let ok = ref true in String.iteri (fun i ch -> if i > 0 && not (ch >= '0' && ch <= '9') then ok := false) s; !ok) in
+              if digits && int_of_string (String.sub s 1 (n - 1)) >= 1 && int_of_string (String.sub s 1 (n - 1)) < 128
+              then emit ("ent " ^ hx [z_of_int (int_of_string (String.sub s 1 (n - 1)))])
+              else emit "ent ?")
+         else
+           (match parse doc with
+            | Ok (N (_, _, _, [(_, v)], _)) -> emit ("ent " ^ hx v)
+            | _ -> emit "ent err");
+         s
        | ["open"; h] -> { s with stack = (bytes_of_hex h, [], []) :: s.stack }
        | ["attr"; k; v] ->
          (match s.stack with
